@@ -536,6 +536,24 @@ def rule_shapes(model):
                                       f'as {seq!r}, expected condition/body '
                                       'pairs followed by an optional else '
                                       'body', node=v, ctx=fi)
+    # the three conditional commands are all compiled to the one
+    # interpreter ('i' form): its handling of undefined names (false),
+    # single evaluation and empty output is what the property describes
+    producers = {i['where'].split(':')[1].split('.')[0]
+                 for i in r.instances if i['verdict'].startswith('i:')}
+    for mshort, cname, what in (
+            ('DT_Var', 'Call', 'dtml-call (an undefined name no longer '
+             'counts as false: the KeyError aborts the template)'),
+            ('DT_If', 'If', 'dtml-if'), ('DT_If', 'Unless', 'dtml-unless')):
+        c = model.cls(mshort, cname)
+        ok = cname in producers
+        r.instance(f'{mshort}:{cname}', "simple_form = ('i', ...)",
+                   'compiled to the conditional interpreter' if ok
+                   else 'OWN RENDER')
+        if not ok:
+            r.finding(f'{mshort}:{cname}', "simple_form = ('i', ...)",
+                      f'{what} is not compiled to the conditional '
+                      'interpreter any more', node=c.node, ctx=c)
     # every continuation section contributes its (condition, body) pair
     ifc = model.func('DT_If', 'If.__init__')
     for n in own_nodes(ifc.node):
